@@ -214,6 +214,27 @@ def purge(ctx: Any) -> List[Ob]:
         for a in sorted(stores):
             w = cfg.must_pass_before_exit(node, lambda n, a=a: n in purge_nodes[a])
             obs.append(ob(R, f, s.node, f'after the registry removal every path drops the answers still queued in `{a}`', w is None, f'answers queued in `{a}` survive the withdrawal and are multicast with their normal TTL after the last goodbye' if w is not None else ''))
+    # the records to purge are walked once per queue (and per pending group): whatever a withdrawal hands to the purge helpers
+    # must be re-iterable, else the second queue is purged with an exhausted iterator
+    from .common import iteration_weight, one_shot_sources
+
+    n_multi = 0
+    for root in {s.caller for s in sites}:
+        for g in ctx.cg.closure([root], include_deferred=False):
+            for p in g.params[1:] if g.cls is not None else g.params:
+                w8, where = iteration_weight(g, p)
+                if w8 < 2:
+                    continue
+                n_multi += 1
+                for cs in ctx.cg.callers_of(g):
+                    idx = g.params.index(p) - (1 if g.cls is not None and isinstance(cs.node.func, ast.Attribute) else 0)
+                    arg = cs.node.args[idx] if 0 <= idx < len(cs.node.args) else next((k.value for k in cs.node.keywords if k.arg == p), None)
+                    if arg is None:
+                        continue
+                    src = one_shot_sources(cs.caller, arg)
+                    obs.append(ob(R, cs.caller, cs.node, f'`{p}` of {g.name} is iterated more than once per call (line {getattr(where[0], "lineno", 0)}), so the argument must be re-iterable', not src, f'`{norm(src[0])[:70]}` is a one-shot iterator: it is exhausted after the first pass' if src else ''))
+    if n_multi == 0:
+        raise AnalysisError('anchor vanished: no purge helper iterates its records more than once (expected: once per queue)')
     return obs
 
 
